@@ -47,6 +47,16 @@ func (e penv) RuntimeType(path, declared string) string {
 
 func (h hooks) Resolve(typeName string, f *gen.FieldDef, p graphql.ResolveParams) (interface{}, error) {
 	v, _ := p.Context.Value(variantKey{}).(int)
+	if f.Name == "f" {
+		// f answers with the arguments it was given and then scribbles on its own copy of
+		// them (a resolver owns its Args): nothing of that may reach another request
+		out := model.Canon(map[string]interface{}(p.Args))
+		for k := range p.Args {
+			delete(p.Args, k)
+		}
+		p.Args["scribbled by variant"] = v
+		return out, nil
+	}
 	return model.RawValue(h.g, penv{h.g, v}, f.Type, model.PathString(p.Info.Path.AsArray())), nil
 }
 func (h hooks) ResolveType(abstract string, p graphql.ResolveTypeParams) string {
@@ -72,6 +82,7 @@ var queries = map[string]string{
 	"introspec": `{__schema{types{name kind possibleTypes{name} enumValues{name}}}}`,
 	"frag":      `{o{...F} i{...F}} fragment F on I {x ... on J {y}}`,
 	"invalid":   `{nope}`,
+	"static":    `{f(x: 3, y: A) k: f(in: {a: 1, b: [2]}) l{f(x: 5)}}`,
 }
 
 const (
@@ -110,6 +121,8 @@ func scenarios(thorough bool) []scenario {
 		{name: "shared cache, same key", threads: [][]op{{{opCacheExec, "frag", 0}}, {{opCacheExec, "frag", 1}}}, maxEnt: 2},
 		{name: "shared cache of size 1, two keys and a reset", threads: [][]op{{{opCacheExec, "frag", 0}}, {{opCacheExec, "enum-out", 0}}, {{opReset, "", 0}}}, maxEnt: 1},
 		{name: "normalising cache, literal-only difference", threads: [][]op{{{opCacheExecN, "enum-in", 0}}, {{opCacheExecN, "enum-in", 0}}}, maxEnt: 2},
+		{name: "shared plan, literal arguments, resolvers that scribble on their arguments", threads: [][]op{{{opPlanExec, "static", 0}}, {{opPlanExec, "static", 1}}}, planQ: "static"},
+		{name: "shared cache, literal arguments, resolvers that scribble on their arguments", threads: [][]op{{{opCacheExec, "static", 0}}, {{opCacheExec, "static", 1}, {opCacheExec, "static", 0}}}, maxEnt: 2},
 		{name: "validation and execution on a cold schema", threads: [][]op{{{opValidate, "frag", 0}}, {{opDo, "abstract", 1}}}},
 		{name: "introspection next to execution on a cold schema", threads: [][]op{{{opDo, "introspec", 0}}, {{opDo, "nested", 1}}}},
 		{name: "invalid request next to a valid one", threads: [][]op{{{opDo, "invalid", 0}}, {{opDo, "enum-out", 0}}}},
